@@ -17,6 +17,12 @@ import (
 )
 
 func main() {
+	// the default go (1.23.5) cannot load /repo under GOTOOLCHAIN=local: always use the newer local toolchain
+	os.Setenv("PATH", "/opt/veriftools/go1.26.8/bin:"+os.Getenv("PATH"))
+	for k, v := range map[string]string{"GOTOOLCHAIN": "local", "GOFLAGS": "-mod=mod", "GOPROXY": "off", "GOSUMDB": "off", "GOWORK": "off"} {
+		os.Setenv(k, v)
+	}
+	os.Unsetenv("GOROOT")
 	if len(os.Args) < 2 {
 		usage()
 	}
